@@ -46,7 +46,29 @@ GRID = [
 GRID_SIZE = len(GRID)  # 2496
 
 
+# A run that is cancelled also has to hold exactly the frames and per-step records of the steps that were
+# completed, each once: one history in twelve is a cancellation in the update of a bounded run (every
+# step 0..N-1 of every (k, N) cell of C15's enumerated family: steps that are multiples of the save
+# interval included), executed and judged by C15's crash-point machinery; of its verdicts the ones about
+# frames, times and records count here.
+CANCEL_RULES = ("frame-duplicate", "frame-labels", "frames-before-stop", "frame-content", "frame-time", "records-count", "records-dt", "records-mu", "records-theta", "records-screening_iterations", "records-frame0", "records-missing", "solution-times", "dynamics-dt", "dynamics-time", "dynamics-mu", "dynamics-theta", "dynamics-screening_iterations", "partial-frame")
+
+
+def _cancel_cells():
+    from . import c15
+
+    return [j for j, c in enumerate(c15.GRID) if c[4] == "sigint" and c[2].startswith("update")]
+
+
 def gen(seed, idx, tier):
+    if idx >= GRID_SIZE and idx % 12 == 5:
+        from . import c15
+
+        cells = _cancel_cells()
+        j = cells[((idx - GRID_SIZE) // 12) % len(cells)]
+        scn = c15.gen(seed, j, tier)
+        scn["c05_cancel"] = j
+        return scn
     scn = _gen(seed, idx, tier)
     # a third of the histories: the loaded solution is also looked at through other saved steps
     scn["views"] = substream(seed, idx, "c05-views").random() < 0.35
@@ -239,6 +261,13 @@ def oracle(scn, sim, h):
 
 
 def run(scn):
+    if scn.get("c05_cancel") is not None:
+        from . import c15
+
+        res = c15.run(scn)
+        res["violations"] = [v for v in res["violations"] if v["rule"] in CANCEL_RULES]
+        res["sig"] = ("cancelled",) + tuple(res["sig"] if isinstance(res["sig"], (tuple, list)) else (res["sig"],))
+        return res
     sim, h = run_scenario(scn)
     try:
         V, status, final = oracle(scn, sim, h)
@@ -267,6 +296,11 @@ def run(scn):
 
 
 def shrink(scn):
+    if scn.get("c05_cancel") is not None:
+        from . import c15
+
+        yield from c15.shrink(scn)
+        return
     yield from base.common_shrinks(scn)
     o = scn["options"]
     if scn.get("physics") == "stub":
